@@ -142,4 +142,26 @@ PROPERTY_META = {
         "depends on the accepted draw only), and the body is additionally proved for every value gen_range may return.",
    note=_KANI_NOTE + " rand 0.8.5 as pinned in Cargo.lock; assumption: gen_range returns a value in [low, high) computed from the accepted draw only.",
    assumptions=["rand::Rng::gen_range(low..high) returns low <= v < high (its rejection loop is cut after the first accepted draw)"]),
+ "C11": dict(level="proof",
+   text="Contract `f(x).bits == TABLE_f[x]` on P16E1 exp, exp2, ln, log2, sin_pi, cos_pi, tan_pi, asin_pi, acos_pi, atan_pi and P8E0 exp, ln for every "
+        "input, where TABLE_f is the correctly rounded result decided with rigorous interval arithmetic (mpmath iv, Ziv refinement against the "
+        "(n+1)-bit midpoints; exact cases by Lindemann-Weierstrass/Niven handled separately; regenerated by setup_cmd). Thorough tier: Kani proves each of the "
+        "twelve obligations over the whole input domain. Quick tier: the P8 obligations by Kani, the ten P16 obligations by exhaustive native "
+        "evaluation of the same contract on all 65536 inputs (enumeration, labelled as such).",
+   note=_KANI_NOTE + " Oracle trusted: mpmath 1.3 interval arithmetic (iv.exp/log/sin/cos/tan/pi) and the exact-case list; tables are independent of /repo.",
+   assumptions=["mpmath interval enclosures are rigorous", "quick tier decides the P16 obligations by exhaustive native evaluation, not by the verifier"]),
+ "C13": dict(level="proof",
+   text="The C01/C05/C06/C09 postconditions instantiated at (N, es) for PxE1<N>/PxE2<N>: operands are N-bit patterns left-aligned in u32, the result "
+        "must be closed (low 32-N bits zero) and be the posit-rule rounding to N bits; one monomorphic Kani obligation per (es, N, operation). Quick: "
+        "N in {2,3,5,8}, all operations; thorough: every N <= 12 (plus mul/round at 16 and the PxE2<32> == P32E2 / PxE1<16> == P16E1 mul agreement).",
+   note=_KANI_NOTE + " Kani cannot make a const generic symbolic: 'every N' is one proof per N. Widths 13..32 of the 64-bit-datapath operations "
+        "(add, sub, div, fused, sqrt) are NOT discharged (SAT does not close them in hours, like P32); they are listed as tier 'deep' and not claimed.",
+   assumptions=["widths N >= 13 are not discharged for add/sub/div/mul_add/sqrt (out of the verifier's reach in the time budget)"]),
+ "C14": dict(level="proof",
+   text="The C02/C03/C07/C08/C04 postconditions instantiated per width: fixed <-> generic posit conversions, generic <-> generic (other exponent size), "
+        "to_f32/to_f64, integer <-> generic posit, Q32E2 -> PxE2<N> (all 2^512 states) and PxE2<N> -> Q32E2; one Kani obligation per (es, N[, M], function). "
+        "Quick: N in {3, 8}; thorough: every N (pairs: M in {2,5,8,16,32}).",
+   note=_KANI_NOTE + " NOT covered: from_f32/from_f64 of the generic types (the code loops on f64 values, up to 270 IEEE multiplications: out of reach; "
+        "not claimed). Known findings D16 (integer -> generic) and D17 (PxE2 -> PxE1) are listed at whole-obligation granularity.",
+   assumptions=["PxE1/PxE2::from_f32/from_f64 are not verified (float loops)", "generic->generic pairs are checked for source widths M in {2,5,8,16,32} only"]),
 }
